@@ -3,6 +3,12 @@
 import json, sys
 
 CHECKS = {
+ "C16": dict(cat="fault_enumeration", tech="proptest-generated fault-free scenario trees; for each tree EVERY single fault is enumerated (each external command failing, a panic at each step position, an unexpected pack result at each build) and executed in a worker process against recording stand-ins for docker/pack; invariant over the recorded command history and final resource state",
+   text="Scenario trees over build/rebuild/start_container/logs/port/exec/run_shell/sbom download run through the public TestRunner API against stand-in docker and pack binaries that log argv and keep a state directory with foreign resources; for each tree the fault-free run and every single-fault variant must satisfy: detached containers force-removed after last use, image and both cache volumes force-removed exactly once after last use, nothing foreign removed, nothing of the run left (unless the failed command was that removal), TMPDIR empty.",
+   note="Docker and pack are modelled by a stand-in whose exit codes and --force semantics are part of the trusted base; single faults only (a closure panic plus a failing `docker rm` during unwinding aborts the process; recorded as an observation in DESIGN.md, outside the property's quantifier)."),
+ "C17": dict(cat="exploration", tech="proptest-generated build/container configurations with option-look-alike strings run through the public API against recording stand-ins; recorded argv decoded by a reference parser of the pflag grammars of pack and docker and compared field by field with the configuration",
+   text="Configurations whose strings start with dashes, look like options, contain '=', spaces, quotes, newlines or Unicode are executed; every recorded pack/docker command line is decoded with a reference implementation of the tools' own flag grammar (interspersed vs. stop-at-first-positional, value flags consuming the next token) and must yield exactly the configured builder, app path (or private copy with the preprocessor's edits), buildpacks in order, env pairs once, entrypoint, env, ports, mounts, image and command vector, with no flag outside the expected set.",
+   note="CSV metacharacters in --mount/--buildpack values and env keys with '=' are outside the domain; the flag tables are the harness's transcription of the docker/pack CLIs (trusted base)."),
  "C20": dict(cat="exploration", tech="metamorphic relation over processes: proptest-generated scenarios (C01/C02/C05/C07 generators) each executed in 4 fresh processes under different temp roots, lstat snapshots of all outputs compared byte for byte after path normalisation",
    text="Every scenario (detect with a generated plan; one or two consecutive builds running generated layer-operation scripts through both layer APIs and returning generated launch/store/SBOM results) is run in four separate processes with independent hash seeds under temp roots of different length; the relative snapshots of <layers> after every build and the build plan must be pairwise identical.",
    note="Iteration-order leaks are detected probabilistically (miss probability <= 1/8 per scenario with >= 2 elements); hash seeds are sampled by spawning processes, not enumerated."),
